@@ -133,10 +133,27 @@ IdealPolarizer(kind) ==
     [] kind = "L-45" -> <<<<C(H2, Q0), C(QSub(Q0, H2), Q0)>>, <<C(QSub(Q0, H2), Q0), C(H2, Q0)>>>>
     [] kind = "RCP"  -> <<<<C(H2, Q0), C(Q0, H2)>>, <<C(Q0, QSub(Q0, H2)), C(H2, Q0)>>>>
     [] kind = "LCP"  -> <<<<C(H2, Q0), C(Q0, QSub(Q0, H2))>>, <<C(Q0, H2), C(H2, Q0)>>>>
+\* the intensities a lossless trace reports when the 2x2 element A sits on a surface and the
+\* input is the named state `as` (unnormalised vector, |e|^2 = 1 or 2): stated state, the
+\* orthogonal one, unpolarized light (their mean), two elements in series
+Transposed(A) == <<<<A[1][1], A[2][1]>>, <<A[1][2], A[2][2]>>>>
+InLens(A, as) ==
+  LET e == P!StateVec(as)
+      sc == IF as \in {"H", "V"} THEN Q1 ELSE H2
+      ip == QMul(sc, P!VAbs2(P!MatVec(A, e)))
+      ib == QMul(sc, P!VAbs2(P!MatVec(A, P!Orth(e)))) IN
+  [ipass |-> ip, iblock |-> ib, iunpol |-> QMul(H2, QAdd(ip, ib)),
+   itwice |-> QMul(sc, P!VAbs2(P!MatVec(P!MatMul(A, A), e)))]
 PolarizerOK(c) ==
   LET el == [kind |-> c.as, M |-> Pad(IdealPolarizer(c.kind))]
       j == P!JudgeElement(el) IN
   /\ (c.kind = c.as => j = {})
+  \* the element inside a lens (JudgeInLens): accepted exactly for its own stated state ...
+  /\ (c.kind = c.as <=> P!JudgeInLens(InLens(IdealPolarizer(c.kind), c.as)) = {})
+  \* ... and the transposed matrix (an index slip in the composition with the local bases) is
+  \* invisible for the linear polarizers (symmetric matrices) and rejected for the circular ones
+  /\ (c.kind = c.as =>
+        (P!JudgeInLens(InLens(Transposed(IdealPolarizer(c.kind)), c.as)) = {} <=> c.kind \notin {"RCP", "LCP"}))
   /\ (c.kind # c.as => "passes_stated_state" \in j \/ "blocks_orthogonal_state" \in j)
   \* the identity is idempotent and passes every state but is no polarizer
   /\ P!JudgeElement([kind |-> c.as, M |-> Pad(P!Id2)]) = {"blocks_orthogonal_state"}
